@@ -32,6 +32,8 @@ if [ $# -eq 0 ]; then
   [ "$rcwrap" -ne 0 ] && exit "$rcwrap"
   /venv/bin/python "$here/tools/py2v_h5r/main.py" --repo "${BIOM_REPO:-/repo}" --out "$here"; rch5r=$?   # reader mode (tools/regen_h5r.sh)
   [ "$rch5r" -ne 0 ] && exit "$rch5r"
+  /venv/bin/python "$here/tools/py2v_h5/main.py" --repo "${BIOM_REPO:-/repo}" --out "$here"; rch5=$?   # HDF5 writer mode (tools/regen_h5.sh)
+  [ "$rch5" -ne 0 ] && exit "$rch5"
   [ "$rc1" -ne 0 ] && exit "$rc1"
   [ "$rc2" -ne 0 ] && exit "$rc2"
   exit "$rc3"
